@@ -17,11 +17,13 @@ spec fn hexval(c int) int =
 spec fn isHex(c int) bool = hexval(c) != 255
 
 // decPrefix is the decimal value of the first n (<= 3) bytes of t.
-spec fn decPrefix(t string, n int) int =
-  n <= 0 ? 0 :
-  n == 1 ? t[0] - '0' :
-  n == 2 ? (t[0] - '0') * 10 + (t[1] - '0') :
-  (t[0] - '0') * 100 + (t[1] - '0') * 10 + (t[2] - '0')
+spec fn decPrefix(t string, n int) int = decPrefix3(t, n)
+
+// the recursive decimal value used by the strconv contracts coincides with
+// the closed form for up to three digits
+lemma decValSmall(t string, n int)
+  requires 0 <= n && n <= 3
+  ensures decVal(t, n) == decPrefix3(t, n)
 
 // octetLabel: a decimal number in [0, 255] without leading zeros.
 spec fn octetLabel(t string) bool =
@@ -416,8 +418,28 @@ lemma dotsInStep(t string, p int, m int)
   apply dotsInNonNeg(t, p)
   ensures dotsIn(t, m) == dotsIn(t, p) + 1 && dotsIn(t, p) >= 0
 
+// v4 reverse network text (property C05): at most four canonical decimal
+// octet labels, read from the right.  rs(t, e) is the start of the label that
+// ends at e; the (at most four) label boundaries are spelled out.
+spec fn rs(t string, e int) int = lastIndexByte(t[:e], '.') + 1
+spec fn v4e(t string, j int) int = j <= 0 ? len(t) : rs(t, v4e(t, j - 1)) - 1
+spec fn v4s(t string, j int) int = rs(t, v4e(t, j))
+// number of labels of a text with at most three dots and no empty label
+spec fn v4Count(t string) int =
+  len(t) == 0 ? 0 : v4s(t, 0) == 0 ? 1 : v4s(t, 1) == 0 ? 2 : v4s(t, 2) == 0 ? 3 : 4
+spec fn v4LabelOK(t string, j int) bool = octetLabel(t[v4s(t, j):v4e(t, j)])
+spec fn v4LabelVal(t string, j int) int = decPrefix(t[v4s(t, j):v4e(t, j)], v4e(t, j) - v4s(t, j))
+spec fn v4NetOK(t string) bool =
+  forall j in 0..4: j < v4Count(t) ==> v4LabelOK(t, j)
+
 func ipv4NetFromReversed
   requires safe_labels: dotsIn(arpa, len(arpa)) <= 3
+  requires no_leading_dot: len(arpa) == 0 || arpa[0] != '.'
+  // every label that is accepted (and counted in l) is a canonical decimal
+  // octet, and the byte stored for it is its value
+  check_at_store l canonical_octet: octetLabel(addr[octetIdx:])
+  check_at_store l octet_value: ip[l - 1] == decPrefix(addr[octetIdx:], len(addr) - octetIdx)
+  ensures bits: err == nil ==> addrIs4(prefAddr(pref)) && !addrZoned(prefAddr(pref)) && 0 <= prefBits(pref) && prefBits(pref) <= 32 && prefBits(pref) % 8 == 0
   loop 0
     invariant safe_view: sameBase(addr, arpa) && off(addr) == off(arpa) && len(addr) <= len(arpa)
     invariant safe_count: 0 <= l && (len(addr) > 0 ==> l + dotsIn(arpa, len(addr)) <= 3) && l <= 4
@@ -425,10 +447,25 @@ func ipv4NetFromReversed
     apply dotsInStep(arpa, octetIdx - 1, prev(len(addr)))
     decreases len(addr)
 
+// v6 reverse network text (property C05): k <= 31 groups "h." followed by
+// "ip6.arpa"; the nibbles are written least significant first.
+spec fn v6NetOK(t string) bool =
+  len(t) >= 8 && (len(t) - 8) % 2 == 0 &&
+  (forall j in 0..(len(t) - 8) / 2: isHex(t[2 * j]) && t[2 * j + 1] == '.')
+// nibble j (0 = most significant) of the denoted prefix
+spec fn v6Nibble(t string, j int) int = hexval(t[len(t) - 10 - 2 * j])
+spec fn v6NetByte(t string, i int, k int) int =
+  (2 * i < k ? v6Nibble(t, 2 * i) * 16 : 0) + (2 * i + 1 < k ? v6Nibble(t, 2 * i + 1) : 0)
+
 func ipv6NetFromReversed
   requires 8 <= len(arpa) && len(arpa) < arpaV6MaxLen
+  ensures accepts: err == nil <==> v6NetOK(arpa)
+  ensures bits: err == nil ==> prefBits(pref) == 4 * ((len(arpa) - 8) / 2) && addrValid(prefAddr(pref)) && !addrIs4(prefAddr(pref)) && !addrZoned(prefAddr(pref))
+  ensures address: err == nil ==> (forall i in 0..16: addrByte(prefAddr(pref), i) == v6NetByte(arpa, i, (len(arpa) - 8) / 2))
   loop 0
     invariant safe_index: nibbleIdx % 2 == 0 && -2 <= nibbleIdx && 2 * l + nibbleIdx == len(arpa) - 10 && 0 <= l
+    invariant scanned: forall j in 0..l: isHex(arpa[len(arpa) - 10 - 2 * j]) && arpa[len(arpa) - 9 - 2 * j] == '.'
+    invariant bytes: forall i in 0..16: ip[i] == v6NetByte(arpa, i, l)
     decreases nibbleIdx + 2
 
 func subnetFromReversedV4
